@@ -19,7 +19,7 @@ from fractions import Fraction
 from engine import term as T, agg, build, vg, ordd, poly as P, polycheck as PC, bits as B
 from engine.agg import ELEM, TU
 from engine.report import HOLDS, VIOLATED, UNDECIDED
-from .common import Analysed, fn_where, joint, explain_diff
+from .common import Analysed, fn_where, joint, explain_diff, narrowing
 
 HDR = '#include <ImathFun.h>\n#include <ImathMath.h>\n#include <ImathRoots.h>\n#include <ImathColorAlgo.h>\nusing namespace IMATH_INTERNAL_NAMESPACE;\n'
 
@@ -464,6 +464,7 @@ def main(rep, ws, tier):
     check_roots(rep, ws)
     check_cubic_double_root(rep, ws)
     check_cubic_generic(rep, ws)
+    narrowing(rep, ws, [gen('d')], 'R17.prec', floor=3)
     rep.floor('utility obligations', len(rep.obs), 30)
     rep.assumptions += ['solveNormalizedCubic cells: csqrt / clog / pow / exp / cos / sin / __divdc3 / __muldc3 replaced by their C99 Annex G / libstdc++ definitions on the cell; the double constants nearest 1/3 and sqrt(3) read as 1/3 and sqrt(3)', 'NaN-free operands for the order rules', 'exact real arithmetic for lerp identities', 'no intermediate negation overflows in divs/mods/divp/modp (the property\'s proviso)', '|x| < 2^31 for floor/ceil/trunc (int(x) defined)']
     rep.undecided_clauses += ['accuracy of the root solvers', 'rgb<->hsv round trip and packed round trip (run-time arithmetic)']
